@@ -85,17 +85,24 @@ func c13Run(e *vh.Env, c c13Case, o *vh.Out) {
 	led := c13Ledger{}
 	ctx := fmt.Sprintf("%s kinds=%v clients=%d backends=%d", c.Strategy, c.Kinds, c.Clients, c.NBack)
 	seq := 0
+	// scen: the scenario the request belongs to. Helios's own refusals are told apart by status and scenario, not by
+	// the wording of their bodies (which the property does not fix): only the drained client of "rl" can be refused
+	// by the limiter (every other request has a client address of its own), only "nb" requests for want of a backend, and any
+	// other 503/429 in a configuration with the breaker on is the breaker's
+	scen := ""
 	account := func(r faultResult, kind string) {
 		mu.Lock()
 		defer mu.Unlock()
 		led.sent++
+		breakerOn := hasKind("cb") || hasKind("ch")
 		switch {
-		case isBreakerReject(r):
-			led.breaker++
-		case isLimiterReject(r):
+		case scen == "rl" && r.Status == 429:
 			led.limiter++
-		case isNoBackend(r):
+		case scen == "nb" && r.Status == 503:
 			led.nobackend++
+		case breakerOn && (r.Status == 503 || r.Status == 429):
+			// no scripted backend of this part answers 503 or 429 itself, and the open breaker of "cb" outlasts its scenario
+			led.breaker++
 		default:
 			led.other++
 			if kind == "refuse" || kind == "gone" {
@@ -104,11 +111,23 @@ func c13Run(e *vh.Env, c c13Case, o *vh.Out) {
 		}
 	}
 	one := func(kind string, cl int) {
+		if kind == "rl" || kind == "cb" || kind == "ch" || kind == "nb" {
+			// these scenarios run alone (see below), so the marker is not shared
+			scen = kind
+			defer func() { scen = "" }()
+		}
 		// a fresh client address per request: only the dedicated "rl" kind may run into the limiter
 		mu.Lock()
 		seq++
 		hdr := [][2]string{{"X-Forwarded-For", fmt.Sprintf("10.13.%d.%d", cl, seq)}}
 		mu.Unlock()
+		// every request of the breaker scenarios comes from a client of its own, so that the limiter (burst 3) has no say there
+		fresh := func() [][2]string {
+			mu.Lock()
+			defer mu.Unlock()
+			seq++
+			return [][2]string{{"X-Forwarded-For", fmt.Sprintf("10.13.%d.%d", 100+cl, seq)}}
+		}
 		switch kind {
 		case "rl":
 			// one client exhausts its burst of 3: requests 4.. are rate limited
@@ -119,17 +138,17 @@ func c13Run(e *vh.Env, c c13Case, o *vh.Out) {
 			return
 		case "cb":
 			// a 500 opens the breaker (threshold 1), the next request is rejected by it
-			account(doFault(sys, "f5", hdr), "f5")
-			account(doFault(sys, "ok", hdr), "ok")
+			account(doFault(sys, "f5", fresh()), "f5")
+			account(doFault(sys, "ok", fresh()), "ok")
 			return
 		case "ch":
 			// open the breaker, wait out its timeout, keep the half-open trial in flight and send two more
 			// requests: they are rejected as "too many requests" while the trial is pending
-			account(doFault(sys, "f5", hdr), "f5")
+			account(doFault(sys, "f5", fresh()), "f5")
 			time.Sleep(6 * time.Second)
 			var trial faultResult
 			tdone := make(chan struct{})
-			go func() { trial = doFault(sys, "holdtrial", hdr); close(tdone) }()
+			go func() { trial = doFault(sys, "holdtrial", fresh()); close(tdone) }()
 			for t := 0; t < 200; t++ {
 				n := 0
 				for _, b := range bes {
@@ -140,8 +159,8 @@ func c13Run(e *vh.Env, c c13Case, o *vh.Out) {
 				}
 				time.Sleep(time.Millisecond)
 			}
-			account(doFault(sys, "ok", hdr), "ok")
-			account(doFault(sys, "ok", hdr), "ok")
+			account(doFault(sys, "ok", fresh()), "ok")
+			account(doFault(sys, "ok", fresh()), "ok")
 			for _, b := range bes {
 				b.Release("trial")
 			}
